@@ -396,6 +396,11 @@ def run_check(prop, cfg, tier, seed, workdir):
         ex = cfg["extra"]()
         broken.extend(ex)
         notes.append("extra obligations (%s): %d findings" % (cfg["extra"].__name__, len(ex)))
+    # conditional compilation: code that none of the two builds of this check compiles
+    rc_c, out_c, _ = sh([sys.executable, os.path.join(VERIF, "tools", "cfg_audit.py")])
+    for l in out_c.strip().splitlines():
+        if l.strip():
+            broken.append("configuration not covered: " + l.strip())
     forbidden = grep_forbidden()
     if forbidden:
         broken.append("forbidden constructs in Lean sources: %s" % forbidden[:3])
